@@ -301,6 +301,16 @@ C09_Funds(pre, ev, post) ==
         IN  /\ TxOk(ev) => \A a \in decl : a.info.native => FundsOf(funds, a.info.id) = a.amount
             /\ ~TxOk(ev) => SameWorld(pre, post)
 
+\* the pool never credits native value that was not attached: on a funded pair the shares minted by a provision are
+\* justified, for each native asset of the pair, by the coins of that denom actually attached (m * r_i <= funds_i * S),
+\* whatever the message declares and however it spells the asset
+C09_Credit(pre, ev, post) ==
+    (TxOk(ev) /\ IsProvideTx(pre, ev) /\ LpSupply(pre, ev.op.pair) # N0 /\ Caller(ev) # ev.op.pair) =>
+        LET p == ev.op.pair   S == LpSupply(pre, p)   m == NMonus(LpSupply(post, p), S) IN
+        \A i \in {0, 1} :
+            InfoAt(pre, p, i).native =>
+                NLe(NMul(m, ResAt(pre, p, i)), NMul(FundsOf(ev.op.funds, InfoAt(pre, p, i).id), S))
+
 (***************************************************************************)
 (* C10  max_spread / belief_price at system level                          *)
 (***************************************************************************)
@@ -461,6 +471,10 @@ C16_Lookup(w, q, ans) ==
                  /\ SameSet(ans.rec, x, y)
                  /\ RegHas(w, x, y) => RecMatches(w, ans.rec, RegEntry(w, x, y))
     /\ RegHas(w, x, y) => ans.ok
+
+\* no operation removes a registered pair from the registry (and so from the listing): the registry only grows
+C19_Monotone(pre, post) ==
+    \A i \in DOMAIN pre.fac.reg : \E j \in DOMAIN post.fac.reg : post.fac.reg[j].pair = pre.fac.reg[i].pair
 
 C17_Update(pre, ev, post) ==
     (TxOk(ev) /\ Kind(ev) = "fac_add_native") =>
